@@ -130,6 +130,12 @@ def worker(name):
            "F": {k: list(v.get("dependent_helpers", [])) for k, v in whelpers.FHelpers.items()},
            "L": {k: list(v.get("dependent_helpers", [])) for k, v in wrapl.LuaHelpers.items()}}
     if name == "tutorial":
+        def _txt(h, keys):
+            return "\n".join(str(h.get(k, "")) for k in keys)
+        res["htext"] = {
+            "C": {k: {"name": v.get("name") or k, "text": _txt(v, ("source", "c_source", "cxx_source"))} for k, v in whelpers.CHelpers.items()},
+            "F": {k: {"name": v.get("name") or k, "text": _txt(v, ("interface", "source", "derived_type"))} for k, v in whelpers.FHelpers.items()},
+        }
         ents = []
         for kindsel, tab in (("fc", statements.fc_statements), ("py", wrapp.py_statements), ("lua", wrapl.lua_statements)):
             for e in tab:
@@ -256,6 +262,7 @@ def build(results):
             rec.setdefault(m, set()).update(fs)
         if "entries" in r:
             entries = r["entries"]
+            build.htext = r.get("htext", {})
     assigned = scan_assignments()
     provided = {}
     common_assigned = set()
@@ -339,6 +346,41 @@ def missing_placeholders(provided, entries):
     return out
 
 
+def undeclared_uses(graphs, htext):
+    """implementation-level closure check: a helper whose text calls the function of another helper must reach that helper
+    through dependent_helpers (otherwise a request for the first alone yields text that uses an undefined name)"""
+    import re
+    out = []
+    for t, tab in htext.items():
+        g = graphs[t]
+
+        def reach(n, seen):
+            if n in seen:
+                return seen
+            seen.add(n)
+            for x in g.get(n, []):
+                if x in g:
+                    reach(x, seen)
+            return seen
+        for hn, h in tab.items():
+            if hn not in g:
+                continue
+            # comments may mention other helpers
+            if t == "F":
+                h = dict(h, text=re.sub(r"!.*", "", h["text"]))
+            else:
+                h = dict(h, text=re.sub(r"//.*", "", re.sub(r"/\*.*?\*/", "", h["text"], flags=re.S)))
+            r = reach(hn, set())
+            for kn, k in tab.items():
+                nm = k.get("name") or kn
+                if kn == hn or not nm or len(nm) < 4 or nm == h.get("name"):
+                    continue
+                if kn not in r and re.search(r"\b%s\b" % re.escape(nm), h["text"]) \
+                        and not any(tab.get(x, {}).get("name") == nm for x in r):
+                    out.append((t, hn, kn, nm))
+    return out
+
+
 def regenerate(jobs=None):
     results = collect(jobs)
     graphs, conflicts, provided, entries, failed = build(results)
@@ -347,7 +389,7 @@ def regenerate(jobs=None):
     info.update({"changed": changed, "conflicts": conflicts[:5], "failed_runs": failed[:5],
                  "unparsable_templates": [(e["name"], e["bad"][:2]) for e in entries if e["bad"]][:5],
                  "missing_placeholders": missing_placeholders(provided, entries)[:10]})
-    data = {"graphs": graphs, "nid": nid, "provided": {k: sorted(v) for k, v in provided.items()}, "entries": entries,
+    data = {"htext": getattr(build, "htext", {}), "graphs": graphs, "nid": nid, "provided": {k: sorted(v) for k, v in provided.items()}, "entries": entries,
             "failed": failed}
     return info, data
 
